@@ -35,6 +35,36 @@ def oracle_history(rec):
     return None
 
 
+def _frame_oracle(rec, adding, members_of):
+    prev = None
+    for i, (op, ob) in enumerate(zip(rec["ops"], rec["obs"])):
+        if ob.get("broken"):
+            return i, "observation failed: " + ob["broken"]
+        if prev is not None and op[0] in adding:
+            old = {repr(e): (ms, a) for (e, ms), a in zip(prev["edges"], prev["eattr"])}
+            new = {repr(e): (ms, a) for (e, ms), a in zip(ob["edges"], ob["eattr"])}
+            order_new = [repr(e) for e, _ in ob["edges"] if repr(e) in old]
+            if [repr(e) for e, _ in prev["edges"]] != order_new:
+                return i, f"{op[0]} removed or reordered existing edges"
+            for k, (ms, a) in old.items():
+                ms2, a2 = new[k]
+                if op[0] == "add_node_to_edge" and k == repr(op[1]):
+                    continue
+                if ms != ms2 or a != a2:
+                    return i, f"{op[0]} altered existing edge {k}: {ms} {a} -> {ms2} {a2}"
+        prev = ob
+    return None
+
+
+def oracle_history_di(rec):
+    return _frame_oracle(rec, {"add_edge", "add_edges_from", "add_node_to_edge"}, None)
+
+
+def oracle_history_sc(rec):
+    return _frame_oracle(rec, {"add_simplex", "add_simplices_from", "add_weighted_simplices_from", "add_edge",
+                               "add_edges_from", "add_weighted_edges_from", "close"}, None)
+
+
 def probe_additions(net, rng):
     """Additions (automatic, explicit-existing, explicit-new, automatic again, bulk) on a network
     of any class, always with node labels that are not in the network; returns a description of
@@ -156,11 +186,34 @@ def run(v):
     for ci, si in mism[3:]:
         reports.append({"correspondence": f"Model.HgCheck.mismatches {PROJ}", "case": ci, "step": si,
                         "history": HC.jsonable(recs[ci]["ops"][:si + 1])})
+    # the other two classes: correspondence including the next automatic id, and the same oracle
+    from .. import disim, scsim
+    from . import C02, C03
+    extra_cases = 0
+    for sim, imp, klass, orc in ((disim, C02.COQ_IMPORT, "DiHypergraph", oracle_history_di),
+                                 (scsim, C03.COQ_IMPORT, "SimplicialComplex", oracle_history_sc)):
+        recs2 = HC.gen_histories(sim, max(200, p["n_cases"] // 3), p["max_len"], C.seed() + 2)
+        extra_cases += len(recs2)
+        for r in recs2:
+            f = orc(r)
+            if f:
+                i, d = f
+                failures.append((f"{PROP}:{klass}.{r['ops'][i][0]}:{d.split(' ')[1]}",
+                                 {"what": d, "class": klass, "history": HC.jsonable(r["ops"][:i + 1]), "step": i}))
+        m2, e2 = HC.eval_histories(PROP, sim, recs2, imp, PROJ)
+        errors += e2
+        for ci, si in m2[:2]:
+            small = HC.shrink(PROP, sim, recs2[ci]["ops"][:si + 1], imp, PROJ)
+            r, mtrace = HC.model_trace(PROP, sim, small, imp)
+            reports.append({"correspondence": f"{imp.split()[-1]}.mismatches {PROJ}", "class": klass,
+                            "history": HC.jsonable(small), "implementation_outcomes": r["excs"],
+                            "implementation_last": HC.jsonable(r["obs"][-1]), "model_trace": mtrace})
     pf, skipped, done, nprov = provenance_sweep(v, 12 if C.tier() == "thorough" else 3)
     failures += pf
     st = HC.stats(recs)
     v.coverage.update({
-        "evaluations": len(recs) + done,
+        "evaluations": len(recs) + extra_cases + done,
+        "other_class_histories": extra_cases,
         "distinct_nontrivial": st.pop("distinct_nontrivial"),
         "rule": "Hypergraph edit histories (as C01) compared with the model on edge tables, attribute values, "
                 "warnings and the next automatic id; plus every provenance (constructor, converter, reader, "
